@@ -81,16 +81,25 @@ static inline int mpz_cmpabs(mpz_srcptr a, mpz_srcptr b)
 static inline int mpz_cmp_ui(mpz_srcptr a, unsigned long u)
 { if (u > (unsigned long)0x7fffffffffffffffL) return -1; return a->v < (long)u ? -1 : (a->v > (long)u ? 1 : 0); }
 static inline int mpz_cmp_si(mpz_srcptr a, long s) { return a->v < s ? -1 : (a->v > s ? 1 : 0); }
-static inline int mpz_odd_p(mpz_srcptr a) { if (a->v == 0) return 0; /* zero is even */ return UF(tstbit)(a->v, 0) ? 1 : 0; }
-static inline int mpz_even_p(mpz_srcptr a) { return UF(tstbit)(a->v, 0) ? 0 : 1; }
+/* bit 0 of the abstract word is the parity of the integer it stands for (two's complement: also for negative
+ * values); instantiated at the call so that loop invariants can speak about parity without an uninterpreted term */
+#define __PARITY_FACT(v) __CPROVER_assume(UF(tstbit)((v), 0) == (((v) & 1L) != 0))
+static inline int mpz_odd_p(mpz_srcptr a) { __PARITY_FACT(a->v); if (a->v == 0) return 0; /* zero is even */ return UF(tstbit)(a->v, 0) ? 1 : 0; }
+static inline int mpz_even_p(mpz_srcptr a) { __PARITY_FACT(a->v); return UF(tstbit)(a->v, 0) ? 0 : 1; }
 static inline int mpz_tstbit(mpz_srcptr a, unsigned long i) { return UF(tstbit)(a->v, i) ? 1 : 0; }
 
+#ifdef VERIF_SIZE_HOOK
+void verif_size_hook(unsigned long r, mpz_srcptr a, int base);
+#endif
 static inline size_t mpz_sizeinbase(mpz_srcptr a, int base)
 {
   unsigned long r = base == 2 ? UF(bits)(a->v) : UF(digits)(a->v, base);
   __CPROVER_assume(r >= 1);
   __CPROVER_assume(a->v == 0 ==> r == 1);            /* manual: the result is 1 if op is zero */
   if (base != 2) __CPROVER_assume(r <= UF(bits)(a->v)); /* base >= 2: no more digits than bits */
+#ifdef VERIF_SIZE_HOOK
+  verif_size_hook(r, a, base);   /* ghost monitor defined by the group */
+#endif
   return r;
 }
 
@@ -140,8 +149,15 @@ static inline void mpz_gcd(mpz_ptr r, mpz_srcptr a, mpz_srcptr b)
 { long x = UF(gcd)(a->v, b->v); __CPROVER_assume(x >= 0); r->v = x; }
 static inline int mpz_jacobi(mpz_srcptr a, mpz_srcptr b)
 { int j = UF(jacobi)(a->v, b->v); __CPROVER_assume(j == -1 || j == 0 || j == 1); return j; }
+#ifdef VERIF_PRIME_HOOK
+void verif_prime_hook(int r, mpz_srcptr a, int reps);   /* ghost monitor defined by the group */
+#endif
 static inline int mpz_probab_prime_p(mpz_srcptr a, int reps)
-{ (void)reps; int r = UF(prime)(a->v); __CPROVER_assume(0 <= r && r <= 2);
+{ (void)reps; int r = UF(prime)(a->v);
+#ifdef VERIF_PRIME_HOOK
+  verif_prime_hook(r, a, reps);
+#endif
+  __CPROVER_assume(0 <= r && r <= 2);
   __CPROVER_assume(r != 0 ==> (a->v >= 2 || a->v <= -2)); return r; }
 _Bool UF(divisible)(long, long);
 static inline int mpz_divisible_p(mpz_srcptr n, mpz_srcptr d)
@@ -161,7 +177,23 @@ static inline void mpz_pow_ui(mpz_ptr r, mpz_srcptr a, unsigned long e) { r->v =
 static inline void mpz_sqrt(mpz_ptr r, mpz_srcptr a) { r->v = UF(sqrt)(a->v); }
 long UF(mul_2exp)(long, unsigned long);
 _Bool UF(congruent_ui)(long, unsigned long, unsigned long);
-static inline void mpz_mul_2exp(mpz_ptr r, mpz_srcptr a, unsigned long n) { r->v = UF(mul_2exp)(a->v, n); }
+/* a * 2^n: the uninterpreted term, with its value fixed for small shifts (fact of the integers instantiated at
+ * the call; no-overflow of the abstract word ASSUMED as for + and -) */
+static inline void mpz_mul_2exp(mpz_ptr r, mpz_srcptr a, unsigned long n)
+{ long x = UF(mul_2exp)(a->v, n);
+  if (n <= 8) { __CPROVER_assume(a->v > -(0x7fffffffffffffffL >> 9) && a->v < (0x7fffffffffffffffL >> 9)); __CPROVER_assume(x == a->v * (1L << n)); }
+  r->v = x; }
+/* index of the lowest set bit (manual: ULONG_MAX when there is none, i.e. for zero) and division by a power of two */
+unsigned long UF(scan1)(long, unsigned long);
+long UF(tdiv_q_2exp)(long, unsigned long);
+static inline unsigned long mpz_scan1(mpz_srcptr a, unsigned long start)
+{ unsigned long s = UF(scan1)(a->v, start); __CPROVER_assume(a->v == 0 ==> s == ~0UL); return s; }
+static inline void mpz_tdiv_q_2exp(mpz_ptr r, mpz_srcptr a, unsigned long n)
+{ long x = UF(tdiv_q_2exp)(a->v, n); __CPROVER_assume(n == 0 ==> x == a->v); __CPROVER_assume(a->v >= 0 ==> (0 <= x && x <= a->v)); r->v = x; }
+/* gcd with a machine word; rop may be NULL (manual) */
+unsigned long UF(gcd_ui)(long, unsigned long);
+static inline unsigned long mpz_gcd_ui(mpz_ptr r, mpz_srcptr a, unsigned long b)
+{ unsigned long x = UF(gcd_ui)(a->v, b); if (r) { __CPROVER_assume(x <= (unsigned long)0x7fffffffffffffffL); r->v = (long)x; } return x; }
 _Bool UF(congruent)(long, long, long);
 /* mpz_congruent_p(n, c, d): n = c (mod d); d = 0 means n == c (GMP manual) */
 static inline int mpz_congruent_p(mpz_srcptr n, mpz_srcptr c, mpz_srcptr d) { if (d->v == 0) return n->v == c->v; if (n->v == c->v) return 1; return UF(congruent)(n->v, c->v, d->v) ? 1 : 0; }
